@@ -86,8 +86,33 @@ pub fn gen(seed: u64, n: usize) -> Vec<Value> {
         vec!["\t", "x", "y", "\u{3000}", "字"],
     ];
     let mut out = vec![];
-    for _ in 0..n {
+    for i in 0..n {
         let pool = &pools[rng.random_range(0..pools.len())];
+        // a few pairs have one long side: lengths and distances that do not fit into 8 bits (the other side is short, so
+        // the table stays small; one pair in 8000 - thorough tier only - is long on both sides)
+        let long = i % 250 == 17 || i % 8000 == 2017;
+        if long {
+            let la = rng.random_range(257..=300);
+            let a: Vec<&str> = (0..la).map(|_| pool[rng.random_range(0..pool.len())]).collect();
+            let b: Vec<&str> = if i % 8000 == 2017 {
+                let mut b = a.clone();
+                for _ in 0..rng.random_range(30..=60) {
+                    let p = rng.random_range(0..b.len() - 1);
+                    match rng.random_range(0..4) {
+                        0 => b.insert(p, pool[rng.random_range(0..pool.len())]),
+                        1 => { b.remove(p); }
+                        2 => b[p] = pool[rng.random_range(0..pool.len())],
+                        _ => b.swap(p, p + 1),
+                    }
+                }
+                b
+            } else {
+                (0..rng.random_range(0..=8)).map(|_| pool[rng.random_range(0..pool.len())]).collect()
+            };
+            let (a, b) = if rng.random_bool(0.5) { (a, b) } else { (b, a) };
+            out.push(json!({"as": a.concat(), "bs": b.concat(), "g": rng.random_bool(0.5), "swap": rng.random_bool(0.5), "sid": false}));
+            continue;
+        }
         let la = rng.random_range(0..=14);
         let a: Vec<&str> = (0..la).map(|_| pool[rng.random_range(0..pool.len())]).collect();
         // b: either independent or a mutated copy of a (dense matches, transpositions)
